@@ -57,7 +57,7 @@ int main(void)
 	ASSUME(ref_bound_ok);
 
 	info.start_transaction = IN.s_sequence;
-	info.end_transaction = IN.s_sequence + ref_ncommits;
+	info.end_transaction = IN.s_sequence + ref_end_ord;
 	rc = do_one_pass(&vf_journal, &info, PASS_REVOKE);
 
 	if (ref_bad_revoke) {
